@@ -1,5 +1,5 @@
 CONSTANT Mode = "doc"
-CONSTANT MaxDepth = 3
+CONSTANT MaxDepth = 4
 INIT McInit
 NEXT McNext
 INVARIANT McOk
